@@ -235,6 +235,8 @@ impl<F: Float, L: Label + std::fmt::Debug> TreeNode<F, L> {
             let total_weight = ordered_weights(&parent_class_freq).iter().sum::<f32>();
             let mut weight_on_right_side = total_weight;
             let mut weight_on_left_side = 0.0;
+            // number of samples of this node which are still in the right subtree
+            let mut samples_on_right_side = mask.nsamples;
 
             // We start by putting all available observations in the right subtree
             // and then move the (sorted by `feature_idx`) observations one by one to
@@ -268,6 +270,13 @@ impl<F: Float, L: Label + std::fmt::Debug> TreeNode<F, L> {
                 // right side by the weight of this sample
                 *left_class_freq.entry(sample_class.clone()).or_insert(0.0) += sample_weight;
                 weight_on_left_side += sample_weight;
+
+                // Once every sample of the node has moved to the left nothing is left to split off:
+                // the weights remaining on the right are only the rounding residue of the `f32` sums
+                samples_on_right_side -= 1;
+                if samples_on_right_side == 0 {
+                    break;
+                }
 
                 // Continue if the next value is equal, so that equal values end up in the same subtree
                 if (sorted_index.sorted_values[i].1 - sorted_index.sorted_values[i + 1].1).abs()
